@@ -592,7 +592,44 @@ fn attribute_shape_mutation(mods: &mut [(ItemPath, Module)], rng: &mut Rng) {
     list.0.insert(pos, shaped);
 }
 
+/// A by-value containment cycle of 1-4 types (plain, array and base edges) together with
+/// types that are not on the cycle but embed a member of it, directly or through each other.
+fn cycle_with_holders(rng: &mut Rng) -> String {
+    let n = rng.range(1, 4);
+    let mut s = String::new();
+    let edge = |rng: &mut Rng, field: &str, target: &str| -> String {
+        match rng.below(4) {
+            0 => format!("{field}: [{target}; {}]", rng.range(1, 3)),
+            1 => format!("#[base] {field}: {target}"),
+            _ => format!("{field}: {target}"),
+        }
+    };
+    for k in 0..n {
+        let next = format!("Cyc{}", (k + 1) % n);
+        let e = edge(rng, "next", &next);
+        s.push_str(&format!("type Cyc{k} {{ id: u32, {e} }}\n"));
+    }
+    let holders = rng.range(1, 4);
+    for h in 0..holders {
+        // embeds a cycle member or an earlier holder; the cycle member may come second
+        let target = if h > 0 && rng.coin() { format!("Holder{}", rng.below(h)) } else { format!("Cyc{}", rng.below(n)) };
+        let e = edge(rng, "first", &target);
+        if rng.coin() {
+            s.push_str(&format!("type Holder{h} {{ id: u32, {e} }}\n"));
+        } else {
+            s.push_str(&format!("type Holder{h} {{ p: *const Cyc0, {e}, q: *mut Holder{h} }}\n"));
+        }
+    }
+    if rng.chance(1, 3) {
+        s.push_str("type Free { x: u64 }\ntype Waiting { m: Missing }\n");
+    }
+    s
+}
+
 fn recursion_case(rng: &mut Rng) -> String {
+    if rng.chance(1, 3) {
+        return cycle_with_holders(rng);
+    }
     match rng.below(8) {
         0 => "type A { a: A }".into(),
         1 => "type A { b: B } type B { a: A }".into(),
